@@ -46,8 +46,5 @@ Rejected == { i \in 1..NT : TLCGet(i) # TLen(i) + 1 }
 
 TraceAccepted ==
     Cardinality({ i \in Rejected :
-        PrintT(<<"REJECTED", i, Traces[i].id, "matched", TLCGet(i) - 1,
-                 "of", TLen(i),
-                 IF TLCGet(i) >= 1 /\ TLCGet(i) <= TLen(i)
-                 THEN Traces[i].ev[TLCGet(i)] ELSE "-">>) }) = 0
+        PrintT(<<"REJECTED", i, "matched", TLCGet(i) - 1, "of", TLen(i)>>) }) = 0
 =============================================================================
